@@ -133,7 +133,7 @@ def _safe(f):
     try:
         return f()
     except Exception as e:  # a property that raises is part of the public state
-        return e
+        return e.with_traceback(None)
 
 
 # --------------------------------------------------------------------------- comparison
